@@ -11,6 +11,9 @@
 //   tt  A A A A                     tuple<dyn,dyn> vs tuple<dyn,dyn>
 //   tm  M I M I                     tuple<maybe<dyn>,scalar> vs same
 //   mt  M I M I                     maybe<tuple<dyn,scalar>> (empty when M = N) vs same
+//   sf  S:kind A:a                  ALIASING: the SAME object is passed as both operands (by reference); kinds as for aa plus
+//                                   vec1 (std::vector<T>, flattened)
+//   sfm M / sfe E / sft A A         the same maybe<dyn> / either<dyn,scalar> / tuple<dyn,dyn> object on both sides
 // Layout suffix on the forms with "A:" operands other than aa:  <form>.rc / .cr / .cc  = the arrays of the first / second
 // operand are row-major (r) or column-major (c) ndarray_t objects holding the SAME logical content; aa has the kind "col".
 //   wi  S:ta S:tb S:vec|nd|sc L:a L:b  integer element types of different WIDTH (i8 u8 i16 u16 i32 i64): vector<ta> vs vector<tb>
@@ -222,6 +225,15 @@ static std::string run(const Case& c, const std::string& form) {
         return with_idx(kind(0), a[2].list, [&](const auto& y) -> std::string {
             if constexpr (meta::is_ndarray_v<std::decay_t<decltype(y)>>) return m.cmp(x, y); else return "unsupported";
         });
+    }
+    if constexpr (!C1 && !C2) {
+    if (form == "sf" && kind(0) == "vec1") { std::vector<T> v; for (auto e : a[1].list) v.push_back(CL ? (T)fp_value(e) : (T)e); return m.cmp(v, v); }
+    if (form == "sf") return with_arr<T>(kind(0), a[1], CL, [&](const auto& x) -> std::string {
+        if constexpr (AP && meta::has_tuple_size_v<std::decay_t<decltype(x)>>) return "unsupported";   // apply_* does not take nested std::array
+        else return m.cmp(x, x); });
+    if (form == "sfm") { auto x = mkM1(a[0]); return m.cmp(x, x); }
+    if (form == "sft") { auto x = nmtools_tuple{mk<T, A1>(a[0], CL), mk<T, A1>(a[1], CL)}; return m.cmp(x, x); }
+    if constexpr (!AP) { if (form == "sfe") { auto x = mkE1(a[0]); return m.cmp(x, x); } }
     }
     if (form == "mm") return m.cmp(mkM1(a[0]), mkM2(a[1]));
     if (form == "ma") return m.cmp(mkM1(a[0]), mk<T, A2>(a[1], CL));
